@@ -317,8 +317,8 @@ func (sc scenario) body() func() {
 
 func c14Scenarios(thorough bool) []scenario {
 	sizes := []int{1, 8192, 16383}
-	starts := []int64{0, size - 1, size - 8193}
-	prefills := []int{0, 5, size}
+	starts := []int64{0, size - 3}
+	prefills := []int{0, size}
 	if thorough {
 		sizes = []int{1, 2, 5, 8191, 8192, 8193, 16383, 16384}
 		starts = []int64{0, size - 1, size - 3, size - 8192, size - 8193, 3*size - 2}
@@ -376,9 +376,10 @@ func c14Scenarios(thorough bool) []scenario {
 		}
 	}
 	var out []scenario
+	np1, nc1 := 3*len(sizes), 4*len(sizes) // programs with a single operation come first
 	for _, st := range starts {
 		for _, pf := range prefills {
-			for _, pp := range prods {
+			for pi, pp := range prods {
 				produced := 0
 				ok := true
 				for _, o := range pp {
@@ -390,7 +391,11 @@ func c14Scenarios(thorough bool) []scenario {
 				if !ok {
 					continue
 				}
-				for _, cp := range conss {
+				for ci, cp := range conss {
+					// quick tier: at least one side is a single operation
+					if !thorough && pi >= np1 && ci >= nc1 {
+						continue
+					}
 					demand := 0
 					for _, o := range cp {
 						demand += o.N
@@ -399,8 +404,6 @@ func c14Scenarios(thorough bool) []scenario {
 					if demand > pf+produced {
 						continue
 					}
-					// ReadFrom closes the buffer when its reader is exhausted: a
-					// consumer that still waits then sees end-of-stream, which is fine
 					out = append(out, scenario{Start: st, Prefill: pf, Prod: pp, Cons: cp})
 				}
 			}
